@@ -7,6 +7,8 @@ RUNS = {"quick": 3000, "thorough": 100000}
 BUDGET_S = {"quick": 50, "thorough": 840}
 CHUNK = 50
 RULE = ("One evaluation = one seeded history with composite steps status -> run --dry-run -> run from the same state (three-way agreement inside the cone), `gwf status` with every combination of -s/--endpoints/patterns/-f default|summary compared to the restriction of the full table computed with the harness' own filter semantics (including empty restrictions), and purity snapshots (all project files incl. logs of renamed/removed targets: content+mtime; parsed .gwf/*.json; scheduler mutation journal) around status and dry-run; targets are renamed, removed and added along the way. Non-trivial = at least one of these comparisons ran.")
+RULE += (" Histories also contain interrupted or failing gwf invocations (hard kill at a seam event, Ctrl-C, ENOSPC, a failing or "
+         "unreachable scheduler command) - only the invocations after them are judged - and 1-2 % of the runs use 140-260 targets.")
 PROFILE = dict(
     nontrivial_probes=['purity_checks', 'status_dryrun_run_triples', 'filtered_status_checks'],
     sizes=[0, 1, 2, 3, 3, 4, 4, 5, 6, 8],
